@@ -981,8 +981,24 @@ def h_final(it: Any, node: ast.Call, fr: Frame) -> V:
     raise Unsupported("final() outside a postcondition")
 
 
+def h_dict_writes(it: Any, node: ast.Call, fr: Frame) -> V:
+    """Number of item assignments to the dict in this loop iteration (since the last havoc)."""
+    d = it.ev(node.args[0], fr)
+    return VInt(len(getattr(d, "log", [])))
+
+
+def h_dict_written(it: Any, node: ast.Call, fr: Frame) -> V:
+    """dict_written(d, k): the (key, value) of the k-th item assignment in this iteration."""
+    d = it.ev(node.args[0], fr)
+    k = it.ev(node.args[1], fr).concrete()
+    log = getattr(d, "log", [])
+    if k is None or k >= len(log):
+        return VOpaque("undefined.dict_written")
+    return VTuple([log[k][0], log[k][1]])
+
+
 HELPERS: Dict[str, Callable[..., V]] = {
-    "pred": h_pred, "final": h_final,
+    "pred": h_pred, "final": h_final, "dict_writes": h_dict_writes, "dict_written": h_dict_written,
     "implies": h_implies, "forall": h_forall, "exists": h_exists, "old": h_old, "written": h_written,
     "appended": h_appended, "appended_count": h_appended_count, "is_kind": h_is_kind,
 }
